@@ -84,6 +84,12 @@ def cases(ctx):
             yield ("core", ln, z, "len", "stream", False)
     for v in deviations(DIMS, 3 if ctx.quick else 4):
         yield ("dev",) + v
+    # the same component object (or equal copies) at several positions of the component list
+    for pattern in ("AA", "ABA", "AAB", "ABAB", "ABCA", "AAA"):
+        for same in ("same-object", "equal-copies"):
+            for sink in ("stream", "path"):
+                for cm in (True, False):
+                    yield ("repeat", pattern, same, sink, cm)
     # histories on ONE live Bf3File object: every write must reflect the object's CURRENT content
     from itertools import product as _product
     depth = 4 if ctx.quick else 5
@@ -155,6 +161,11 @@ def run_history(ctx, seq):
 
 
 def model_of(ctx, case):
+    if case[0] == "repeat":
+        _, pattern, same, sink, cm = case
+        models = {ch: {"tags": [(0xC1, bytes([i]))], "content": shapes.payload(ctx, "c01-rep-%s" % ch, 17 + i, 0), "declared": 17 + i, "enc": False}
+                  for i, ch in enumerate("ABC")}
+        return [("FirmwareId", "1053")], [models[ch] for ch in pattern], key_of(ctx, 4), sink, cm, False
     if case[0] == "core":
         _, ln, z, dm, sink, cm = case
         comps = [{"tags": TAGS[1], "content": shapes.payload(ctx, "c01", ln, z),
@@ -177,6 +188,10 @@ def run_case(ctx, case):
         return run_history(ctx, case[1:])
     comments, comps, key, sink, check_cmac, over = model_of(ctx, case)
     f = shapes.mk_bf3(comments, comps)
+    if case[0] == "repeat" and case[2] == "same-object":
+        # the SAME component object at several positions of the list
+        first = {}
+        f.components = [first.setdefault(ch, c) for ch, c in zip(case[1], f.components)]
     kargs = () if key is None else (key,)
     path = os.path.join(shapes.tmpdir(), "c01.bf3")
     try:
